@@ -334,7 +334,7 @@ def check_property(prop, tier="quick", seed=0, only_unit=None, jobs=None, verbos
                     d[re.sub(r"\[[^\]]*\]", "[*]", nm)] = "bounded"
         json.dump(dump, open(os.environ["FVC_DUMP_NAMES"], "w"), indent=1)
     findings = load_known_findings()
-    n_obl = n_dis = n_ref = n_und = 0
+    n_obl = n_dis = n_ref = n_und = n_clause = 0
     backends = {}
     solver_s = 0.0
     violations = []
@@ -402,6 +402,8 @@ def check_property(prop, tier="quick", seed=0, only_unit=None, jobs=None, verbos
                     vacuity["covers_sat"] = vacuity.get("covers_sat", 0) + 1
                 continue
             n_obl += 1
+            if is_clause(prop, u, o["name"], o["kind"]):
+                n_clause += 1
             pu["obligations"] += 1
             backends[o["backend"]] = backends.get(o["backend"], 0) + 1
             if o["status"] == "proved":
@@ -558,6 +560,8 @@ def check_property(prop, tier="quick", seed=0, only_unit=None, jobs=None, verbos
             "refuted": n_ref,
             "refuted_known_findings": len(known_hits),
             "failing_obligations_owned_by_other_properties": len(set(context_fail)),
+            "obligations_that_are_clauses_of_this_property": n_clause,
+            "clause_rule": "units are contracts of functions and serve several properties; for the cross-cutting properties (C13, C15) and where a unit says so (not_clauses / only_clauses) only the obligations that state this property decide its verdict -- all obligations of the units are discharged and counted above",
             "undecided": n_und,
             "checker_cmd": f"./check {prop} --tier {tier}",
             "trusted_base": TRUSTED_BASE,
